@@ -2,7 +2,9 @@
 
 use crate::engine::{Fail, Obs, Prop, Tier};
 use crate::ensure;
+use crate::gen::mutate::PMut;
 use crate::gen::pinput::*;
+use crate::gen::smlfile::cfile_typical;
 use crate::props::parsers::*;
 use crate::refmodel::sml::*;
 use crate::util::{hex_short, Kv};
@@ -52,7 +54,23 @@ impl Prop for C09 {
     }
 
     fn strategy(tier: Tier) -> BoxedStrategy<PCase> {
-        pcase(tier == Tier::Thorough, (3, 10, 3, 1))
+        // double faults inside one message: the two parsers run the checksum, end-marker and
+        // end-of-input checks in their own order, so only a pair of faults can tell them apart
+        let second = prop_oneof![
+            (1u8..=255).prop_map(|v| (0u8, v)),
+            (1u8..4).prop_map(|b| (1u8, b)),
+            (0u8..8).prop_map(|t| (2u8, t)),
+        ];
+        let double = (cfile_typical(), any::<u16>(), 1u8..=255, second, any::<bool>()).prop_map(|(file, i, v, (kind, x), crc_first)| {
+            let a = PMut::CrcByte(i, v);
+            let b = match kind {
+                0 => PMut::EndMarker(i, x),
+                1 => PMut::TruncateAtMsgEnd(i, x),
+                _ => PMut::TypeNibble(i, x),
+            };
+            PCase::Mutated { file, muts: if crc_first { vec![a, b] } else { vec![b, a] }, fix: false }
+        });
+        prop_oneof![1 => double, 5 => pcase(tier == Tier::Thorough, (3, 10, 3, 1))].boxed()
     }
 
     fn lower(c: &PCase) -> PInput {
